@@ -22,13 +22,13 @@ import (
 // Serves C19.
 
 type corruptWorkload struct {
-	Blocks     []int  `json:"rows_per_block"`
-	Compress   string `json:"compression"`
-	Mode       int    `json:"mode"`   // 0 byte-level mutation, metadata held by the MetaStore; 1 CRC-consistent footer rewrite, metadata read from the file
-	When       int    `json:"when"`   // 0 before the query, 1 while the query runs, 2 before a merge
-	Mutation   string `json:"mutation"`
-	Detail     string `json:"detail"`
-	QueryKind  int    `json:"query_kind"`
+	Blocks    []int  `json:"rows_per_block"`
+	Compress  string `json:"compression"`
+	Mode      int    `json:"mode"` // 0 byte-level mutation, metadata held by the MetaStore; 1 CRC-consistent footer rewrite, metadata read from the file
+	When      int    `json:"when"` // 0 before the query, 1 while the query runs, 2 before a merge
+	Mutation  string `json:"mutation"`
+	Detail    string `json:"detail"`
+	QueryKind int    `json:"query_kind"`
 }
 
 // boundedReader is an io.ReadSeeker over a byte slice that records reads no correct reader of a
